@@ -623,6 +623,65 @@ def run(prop="C18", tier="quick"):
                 res["samples"].append(dict(rule="R-PRINTF.tables", table=g["name"], file=relpath(file)))
     if ntab < 7:
         raise AnalysisBroken("R-PRINTF: only %d printf/scanf function tables found (floor 7)" % ntab)
+    # back ends that write a C string need the `final` step that stores the terminating NUL (an empty format reaches no other callback)
+    for g in facts["globals"]:
+        if "struct.doprnt_funs_t" in g["type"] and g["constant"] and "init" in g and any(k in g["name"] for k in ("sprintf", "snprintf")):
+            v = g["init"][3] if len(g["init"]) > 3 else None
+            res["stats"]["table_slots"] += 1
+            if not (isinstance(v, dict) and ("ref" in v or v.get("expr"))):
+                F.append(Finding(prop, "R-PRINTF", g["loc"].rpartition(":")[0], 0, g["name"], "string-backend-without-final:%s" % g["name"],
+                                 "function table %s writes a C string but has no `final` function: with an empty format (or one made of %%n "
+                                 "conversions) nothing stores the terminating NUL" % g["name"]))
+    # character sources of the scanf layer return an unsigned char value or EOF, never a negative char (0xFF must not look like EOF)
+    ex0 = sa.export(sa.cfg_built())
+    byname = {f["name"]: (p_, f) for p_, f in ex0.functions(lambda p_: "/scanf/" in p_)}
+    for g in facts["globals"]:
+        if "struct.gmp_doscan_funs_t" in g["type"] and g["constant"] and "init" in g and len(g["init"]) > 2:
+            v = g["init"][2]
+            ref = v.get("ref") if isinstance(v, dict) else None
+            if ref and ref.split(".")[0] in byname:
+                p_, fn = byname[ref.split(".")[0]]
+                defs = collections.defaultdict(list)
+                rets = []
+                for b in fn["blocks"]:
+                    for el in b["elems"]:
+                        def h(n, el=el):
+                            if n.get("k") == "binop" and n["op"] == "=" and n["l"].get("k") == "var":
+                                defs[n["l"]["id"]].append(n["r"])
+                            if n.get("k") == "decl":
+                                for d_ in n["decls"]:
+                                    if "init" in d_:
+                                        defs[d_["var"]["id"]].append(d_["init"])
+                            if n.get("k") == "return" and n.get("e"):
+                                rets.append((el["line"], n["e"]))
+                        sa.walk(el["e"], h)
+
+                def bytey(e, depth=0):
+                    while isinstance(e, dict) and e.get("k") == "cast" and e.get("ct") in ("int", "unsigned int", "long"):
+                        e = e["e"]
+                    if not isinstance(e, dict) or depth > 3:
+                        return False
+                    if e.get("k") == "int":
+                        return -1 <= e["v"] <= 255
+                    if e.get("k") == "cast":
+                        return e.get("ct") == "unsigned char"
+                    if e.get("k") == "call":
+                        return e.get("callee") in ("getc", "fgetc", "_IO_getc", "getc_unlocked", "fgetc_unlocked")
+                    if e.get("k") == "unop" and e["op"] == "*":
+                        x = e["e"]
+                        while isinstance(x, dict) and x.get("k") in ("unop",) and x["op"] in ("post++", "pre++"):
+                            x = x["e"]
+                        return isinstance(x, dict) and "unsigned char *" in x.get("ct", "")
+                    if e.get("k") == "var":
+                        ds = defs.get(e["id"], [])
+                        return bool(ds) and all(bytey(d_, depth + 1) for d_ in ds)
+                    return False
+                for line, e in rets:
+                    res["stats"]["table_slots"] += 1
+                    if not bytey(e):
+                        F.append(Finding(prop, "R-PRINTF", p_, line, fn["name"], "scan-get-not-byte",
+                                         "the character source %s of %s returns a value at line %d that is not an unsigned char (or EOF): a byte "
+                                         ">= 0x80 comes back negative, 0xFF equal to EOF, and the scanner stops or mis-parses there" % (fn["name"], g["name"], line)))
     # ---- snprintf backend --------------------------------------------------------------------------
     snprintf_clause(prop, res)
     run_reset(prop, res)
